@@ -10,3 +10,8 @@ CHECKS['C01'] = ('model_checking',
   'Every statically well-typed step expression up to the operator bound (as generated attack steps of the SEM language family) is evaluated by the real AttackGraph generator on every instance model up to the asset/link bound; each node\'s child set must lie between the reference lower/upper semantics (equal when no * occurs), parents must be the converse, generation must terminate.',
   'Trusted: CPython, python_jsonschema_objects, the 100-line reference evaluator (self-checked by algebraic laws). Intersection/difference only where pointwise and set-level MAL readings coincide.',
   'DESIGN.md 3/C01')
+CHECKS['C03'] = ('model_checking',
+  'explicit-state BFS to closure over lookup/regenerate/generate histories, one transition system per enumerated inheritance shape, reference fold as oracle',
+  'For every inheritance shape (absent / no-reaches / -> / +> at each of 4-6 levels incl. siblings) the real language graph is driven through every operation (resolve each type, regenerate, rebuild, build classes, generate attack graphs); the search closes at depth 1 with one state per language iff the lookup is pure, which covers histories of any length; every answer is compared with two independently written formulations of the root-down fold.',
+  'Trusted: the 30-line reference fold (two formulations cross-checked). Metadata carried by redefinitions is not compared.',
+  'DESIGN.md 3/C03')
